@@ -22,6 +22,7 @@ import XzVerif.Model.LazyXz
 import XzVerif.Model.Src
 import XzVerif.Model.Writer1F
 import XzVerif.Model.Writer1G
+import XzVerif.Model.GoSrcRun
 /-
   driver — line protocol around the executable definitions of Spec and Model.
   One request per line on stdin, one reply line on stdout.  Core-only, so it links.
@@ -648,6 +649,7 @@ def handle (line : String) : String :=
   | ["lzmaops", h] =>
     let r := Lzma1.read 0 (unhex h)
     " ".intercalate (r.ops.toList.map opStr)
+  | "gosrc" :: rest => GoSrcRun.handle rest
   | _ => "bad-op"
 
 partial def loop (h : IO.FS.Stream) (out : IO.FS.Stream) : IO Unit := do
